@@ -276,7 +276,22 @@ pub fn substitute(e: &mut Expr, name: &str, by: &Expr) {
     s.visit_expr_mut(e);
 }
 
+struct Deep;
+impl VisitMut for Deep {
+    fn visit_block_mut(&mut self, b: &mut Block) {
+        visit_mut::visit_block_mut(self, b);
+        *b = normalize_shallow(b);
+    }
+}
+
+/// let-normal form of a block and of every block nested in it
 pub fn normalize_block(b: &Block) -> Block {
+    let mut b = b.clone();
+    Deep.visit_block_mut(&mut b);
+    b
+}
+
+fn normalize_shallow(b: &Block) -> Block {
     let mut b = b.clone();
     Longhand.visit_block_mut(&mut b);
     let mut k = 0;
